@@ -34,6 +34,11 @@ register('C18', 'Hypothesis-generated curves (shipped + rectilinear polygons/pol
          'element of the tree, >= 3 elements around closed curves for every time grid, <= 1 common end point.',
          'vlib/geo.py vertex lists; integer/dyadic rectilinear vertex chains are required to be accepted by the constructor', 'DESIGN.md 3/C18')
 
+register('C15', 'Hypothesis-generated (base rule, constructor, mirror sequence, box) with exhaustive monomial exactness per case; algebraic laws',
+         'Every tabulated base rule x every derived constructor on a fixed offset box (complete) plus generated boxes and mirror call orders; all monomials of the advertised '
+         'total degree per case; involution / non-aliasing of mirrors; sym vs non-sym Duffy; convergence of log-singular model integrals to mpmath closed forms.',
+         'tolerance 1e-12 plus node-rounding term for boxes far from the origin; symmetric Duffy variants are tested on symmetric integrands only (what they are for)', 'DESIGN.md 3/C15')
+
 NOT_YET = {}
 def main():
     props = [json.loads(l)['id'] for l in open(os.path.join(V, 'properties.jsonl'))]
